@@ -94,6 +94,18 @@ def check_pos(got, want, where, viol, case, local=False):
         viol.append(("position/height", "%s: denotes height %.6f, original %.6f" % (where, h, want[2]), case))
 
 
+def used_geo(p, other):
+    """a position OBJECT with a past: it stood somewhere else, was converted there, and was then moved by assigning its public
+    attributes lon / lat / hgt (what ECEFCoords.toGeoCoords itself does): it denotes the position it holds now"""
+    from tracklib.core.obs_coords import GeoCoords
+    g = GeoCoords(*other)
+    with core.quiet():
+        g.toECEFCoords()
+        g.toENUCoords(GeoCoords(other[0] + 0.01, other[1] - 0.01, 10.0))
+    g.lon, g.lat, g.hgt = p
+    return g
+
+
 def replay(cases):
     from tracklib.core.track import Track
     from tracklib.core.obs import Obs
@@ -120,7 +132,8 @@ def replay(cases):
             # ---------------- whole-track replay
             try:
                 with core.quiet():
-                    tr = Track([Obs(GeoCoords(*p), ObsTime()) for p in pts])
+                    past = (len(label) + int(abs(p1[0]) + abs(p2[1]))) % 2 == 0
+                    tr = Track([Obs(used_geo(p, b2) if past else GeoCoords(*p), ObsTime()) for p in pts])
                 for si, s in enumerate(hist):
                     where = "track history [%s] step %d" % (label, si + 1)
                     with core.quiet():
@@ -180,7 +193,7 @@ def replay(cases):
                 viol.append(("track/raised", "track history [%s] raised %r" % (label, ex), case))
             # ---------------- single coordinate objects, explicit bases
             try:
-                pos = GeoCoords(*p2)
+                pos = used_geo(p2, p1) if (len(label) + int(abs(p2[0]) + abs(b1[1]))) % 2 == 0 else GeoCoords(*p2)
                 cur = ("Geo",)
                 for si, s in enumerate(hist):
                     where = "point history [%s] step %d" % (label, si + 1)
